@@ -189,8 +189,8 @@ theorem expE_publish (N : Nat) (s : State) : expE N (publish s N) = 0 := by
   have h2 : (publish s N).fdtQueue ≠ [] := by rw [publish_fdtQueue]; simp
   rw [if_pos ⟨h1, Or.inl h2⟩]
 
-/-- at expiry (and `0 < fdt_duration`) the republication credit is still there -/
-theorem expE_of_expire {N : Nat} {s : State} (hdur : 0 < s.cfg.fdtDuration) (he : currentFdtWillExpire s N = true) :
+/-- at expiry the republication credit is still there (no publication at this very instant: repair of F24) -/
+theorem expE_of_expire {N : Nat} {s : State} (he : currentFdtWillExpire s N = true) :
     expE N s = 1 ∧ s.fdtQueue = [] := by
   unfold currentFdtWillExpire at he
   cases hq : s.fdtQueue with
@@ -207,22 +207,17 @@ theorem expE_of_expire {N : Nat} {s : State} (hdur : 0 < s.cfg.fdtDuration) (he 
       | none => rw [hc] at h; cases h
       | some k =>
         rw [hc, hlp] at he
-        simp only [List.isEmpty_nil, Bool.not_true, Bool.false_eq_true, if_false, Nat.sub_self] at he
-        split at he
-        · simp at he
-        · split at he
-          · simp at he
-          · simp at he; omega
+        simp at he
 
 theorem FInv.ofExpiryPublish {N c : Nat} {tbl : List Nat} {log0 : List Ev} {s : State} {L : Held} (now : Nat)
-    (hw : Wf s L) (hdur : 0 < s.cfg.fdtDuration) (h : FInv N c tbl log0 s L)
+    (hw : Wf s L) (h : FInv N c tbl log0 s L)
     (he : currentFdtWillExpire s now = true) : FInv N c tbl log0 (publish s now) L := by
   refine h.event (Ev.pub now s.fdts.length (pubDesc s).content) (publish_log s now) ?_
   intro hok
   have hnow : now = N := by simpa [okEv] using hok
   subst hnow
   simp only [isFdtPk, Bool.false_eq_true, if_false, Nat.add_zero]
-  obtain ⟨hE, _⟩ := expE_of_expire hdur he
+  obtain ⟨hE, _⟩ := expE_of_expire he
   unfold phiB
   rw [curTerm_publish hw, queueTerm_publish, expE_publish, startsA_pubMark, hE]
   have hlen : (publish s now).fdts.length = s.fdts.length + 1 := by rw [publish_fdts]; simp
@@ -641,7 +636,7 @@ theorem FInv.same {N c : Nat} {tbl : List Nat} {log0 : List Ev} {s s' : State} {
     (h5 : s'.lastPublish = s.lastPublish) (h6 : s'.objs = s.objs) (h7 : s'.queue = s.queue) : FInv N c tbl log0 s' L :=
   h.event e hlog (fun _ => by rw [hn, phiB_congr h1 h2 h3 h4 h5 h6 h7]; simp)
 
-theorem FInv.closed (cfg : Cfg) (tbl : List Nat) (hdur : 0 < cfg.fdtDuration) (N c0 : Nat) (log0 : List Ev) :
+theorem FInv.closed (cfg : Cfg) (tbl : List Nat) (N c0 : Nat) (log0 : List Ev) :
     Closed (FBase cfg tbl) (FInv N c0 tbl log0) where
   perm := fun s L L' p h => by
     obtain ⟨new, e1, h1⟩ := h
@@ -652,7 +647,7 @@ theorem FInv.closed (cfg : Cfg) (tbl : List Nat) (hdur : 0 < cfg.fdtDuration) (N
   enterFiles := fun _ _ _ _ h _ _ => h.silent rfl (Nat.le_of_eq (phiB_congr rfl rfl rfl rfl rfl rfl rfl))
   emitRead := fun _ _ now _ h _ => h.same (Ev.opRead now) rfl rfl rfl rfl rfl rfl rfl rfl rfl
   emitIdle := fun _ _ now _ h _ => h.same (Ev.idle now) rfl rfl rfl rfl rfl rfl rfl rfl rfl
-  publish := fun s _ now hb h he => h.ofExpiryPublish now hb.1.1.1 (by rw [hb.2.2]; exact hdur) he
+  publish := fun s _ now hb h he => h.ofExpiryPublish now hb.1.1.1 he
   fdtAdvance := fun _ _ now hb h _ hs => h.ofFdtAdvance now hb.1.1.1 hb.2.1 hs
   fileStart := fun _ _ _ _ tk _ hb h _ hfn => FInv.ofFileStart tk _ rfl hb.1 h hfn
   pkt := fun _ _ _ _ now _ idx b e _ h _ _ _ _ _ => h.ofPkt now idx b e
@@ -763,7 +758,7 @@ def mu (N : Nat) (tbl : List Nat) (s : State) : Nat := phiA N s (heldOf s) + phi
 
 /-- `read_terminates`: for `0 < fdt_duration`, after ANY operation history, among ANY sequence of reads at one
     instant `N` at most `mu N tbl s` return something; hence `None` is returned after at most `mu` packets -/
-theorem busy_reads_bounded (cfg : Cfg) (tbl : List Nat) (hdur : 0 < cfg.fdtDuration) (ops : List Op) (N : Nat)
+theorem busy_reads_bounded (cfg : Cfg) (tbl : List Nat) (ops : List Op) (N : Nat)
     (tks : List (List (Nat × Nat))) :
     busyReads N (run (init cfg tbl) ops) tks ≤ mu N tbl (run (init cfg tbl) ops) := by
   have hb := run_inv (FBase.closed cfg tbl) (FBase.closedOps cfg tbl) ops (init cfg tbl)
@@ -790,7 +785,7 @@ theorem busy_reads_bounded (cfg : Cfg) (tbl : List Nat) (hdur : 0 < cfg.fdtDurat
         done := fun s L prio c now f e hb => h.done s L prio c now f e hb.1
         fdtPkt := fun s L c f now idx b e hb => h.fdtPkt s L c f now idx b e hb.1
         fdtDone := fun s L c f now e hb => h.fdtDone s L c f now e hb.1 }
-    · have h := FInv.closed cfg tbl hdur N (phiB N tbl s0 (heldOf s0)) s0.log
+    · have h := FInv.closed cfg tbl N (phiB N tbl s0 (heldOf s0)) s0.log
       exact
       { perm := h.perm, leaveFiles := h.leaveFiles
         enterFiles := fun s L now hb => h.enterFiles s L now hb.1
@@ -874,7 +869,7 @@ theorem all_busy (N : Nat) (tk : List (Nat × Nat)) : ∀ (n : Nat) (s : State),
     | fdt a b c => simp; omega
 
 /-- corollary: polling at one instant, `None` comes back within `mu + 1` reads -/
-theorem reads_reach_none (cfg : Cfg) (tbl : List Nat) (hdur : 0 < cfg.fdtDuration) (ops : List Op) (N : Nat)
+theorem reads_reach_none (cfg : Cfg) (tbl : List Nat) (ops : List Op) (N : Nat)
     (tk : List (Nat × Nat)) :
     ∃ k, k ≤ mu N tbl (run (init cfg tbl) ops) ∧ (reads (run (init cfg tbl) ops) N tk (k + 1)).2 = Out.none := by
   by_cases h : ∃ k, k ≤ mu N tbl (run (init cfg tbl) ops) ∧ (reads (run (init cfg tbl) ops) N tk (k + 1)).2 = Out.none
@@ -884,7 +879,7 @@ theorem reads_reach_none (cfg : Cfg) (tbl : List Nat) (hdur : 0 < cfg.fdtDuratio
       intro k hk hn
       exact h ⟨k, by omega, hn⟩
     have h1 := all_busy N tk _ (run (init cfg tbl) ops) hall
-    have h2 := busy_reads_bounded cfg tbl hdur ops N (List.replicate (mu N tbl (run (init cfg tbl) ops) + 1) tk)
+    have h2 := busy_reads_bounded cfg tbl ops N (List.replicate (mu N tbl (run (init cfg tbl) ops) + 1) tk)
     omega
 
 end Flute.Sched
